@@ -281,7 +281,10 @@ type symtab struct {
 var syms = &symtab{decl: map[string]string{}}
 
 func declare(name, line string) {
-	if _, ok := syms.decl[name]; ok {
+	if old, ok := syms.decl[name]; ok {
+		if old != line {
+			panic("conflicting SMT declarations for " + name + ": " + old + " vs " + line)
+		}
 		return
 	}
 	syms.decl[name] = line
